@@ -52,7 +52,7 @@ func wildProp(sys semver.System) func(*rapid.T) {
 }
 
 func TestWildcardLaws(t *testing.T) {
-	for _, sys := range []semver.System{semver.DefaultSystem, semver.NPM, semver.Cargo, semver.NuGet} {
+	for _, sys := range []semver.System{semver.DefaultSystem, semver.NPM, semver.Cargo, semver.NuGet, semver.PyPI} {
 		rec.Check(t, "laws-wildcards/"+sys.String(), ev.N(4000, 400000), wildProp(sys))
 	}
 }
